@@ -328,4 +328,127 @@ theorem Dec.getValues_spec : ∀ (k q : Nat) (slots : Slots) (i : Nat) (e : Xor.
       have := ih (q + 1) [] i e d st en t h hs (by simpa using hen) hb hb2 (Or.inr (Or.inr ⟨rfl, by omega⟩))
       simp only [this]
 
+
+/-! ### Seek -/
+
+/-- XOR encoder state after a run of values -/
+def xStepAll (e : Xor.Enc) (vs : List Nat) : Xor.Enc := vs.foldl Xor.Enc.step e
+
+theorem xStepAll_inv (vs : List Nat) : ∀ (e : Xor.Enc), e.Inv → (∀ v ∈ vs, v < two64) → (xStepAll e vs).Inv := by
+  induction vs with
+  | nil => intro e h _; exact h
+  | cons v vs ih =>
+    intro e h hv
+    exact ih (e.step v) (e.step_inv v h (hv v (by simp))) (fun x hx => hv x (by simp [hx]))
+
+/-- the loop of `Seek(s)` over a run of present slots that ends exactly at `s`: every slot is
+consumed (presence bit and value) and the loop stops in front of `s` with result `true`. -/
+theorem Dec.seekLoop_dense : ∀ (vs : List Nat) (rest : Slots) (i : Nat) (e : Xor.Enc) (d : Dec) (st en : Nat)
+    (t : List Bool) (fuel : Nat),
+    DecAt d st en i e (slotBits e (vs.map some ++ rest) ++ t) → (∀ v ∈ vs, v < two64) →
+    st + i + vs.length ≤ en → en ≤ 65535 → i + vs.length ≤ 65535 → vs.length < fuel →
+    ∃ d', Dec.seekLoop (st + i + vs.length) fuel d = (true, d') ∧
+      DecAt d' st en (i + vs.length) (xStepAll e vs) (slotBits (xStepAll e vs) rest ++ t) := by
+  intro vs
+  induction vs with
+  | nil =>
+    intro rest i e d st en t fuel h _ hen h65 _ hf
+    obtain ⟨f, rfl⟩ : ∃ f, fuel = f + 1 := ⟨fuel - 1, by omega⟩
+    refine ⟨d, ?_, by simpa [xStepAll] using h⟩
+    simp only [Dec.seekLoop, List.length_nil, Nat.add_zero]
+    have hu : u16 (d.idx + d.startTime) = st + i := by
+      rw [h.idx, h.st]; unfold u16; simp only [List.length_nil, Nat.add_zero] at hen; omega
+    rw [hu]
+    simp
+  | cons v vs ih =>
+    intro rest i e d st en t fuel h hvs hen h65 hi hf
+    obtain ⟨f, rfl⟩ : ∃ f, fuel = f + 1 := ⟨fuel - 1, by omega⟩
+    simp only [List.length_cons] at hen hi hf
+    have hv : v < two64 := hvs v (by simp)
+    have hu : u16 (d.idx + d.startTime) = st + i := by
+      rw [h.idx, h.st]; unfold u16; omega
+    have hlt : st + i < st + i + (vs.length + 1) := by omega
+    have hidx : u16 (d.idx + 1) = i + 1 := by rw [h.idx]; unfold u16; omega
+    have hat' : DecAt { d with idx := i + 1 } st en (i + 1) e
+        (true :: (encBits e v ++ (slotBits (e.step v) (vs.map some ++ rest) ++ t))) := by
+      simpa [slotBits, List.append_assoc] using h.setIdx (i + 1)
+    obtain ⟨d2, hhv, hat2⟩ := Dec.hasValue_spec hat'
+    obtain ⟨d3, hval, hat3⟩ := Dec.value_spec hat2 hv
+    have hhvs : d.hasValueWithSlot (st + i) = (true, d2) := by
+      unfold Dec.hasValueWithSlot
+      have c1 : ¬ (st + i < d.startTime ∨ st + i > d.endTime) := by rw [h.st, h.en]; omega
+      have c2 : st + i = u16 (d.idx + d.startTime) := hu.symm
+      rw [if_neg c1, if_pos c2, hidx, hhv]
+    obtain ⟨d', hloop, hat'⟩ := ih rest (i + 1) (e.step v) d3 st en t f hat3
+      (fun x hx => hvs x (by simp [hx])) (by omega) h65 (by omega) (by omega)
+    refine ⟨d', ?_, ?_⟩
+    · simp only [Dec.seekLoop, List.length_cons, hu, hlt, if_true, hhvs, hval]
+      have e1 : st + i + (vs.length + 1) = st + (i + 1) + vs.length := by omega
+      rw [e1]; exact hloop
+    · have e2 : i + (v :: vs).length = i + 1 + vs.length := by simp; omega
+      rw [e2]
+      simpa [xStepAll] using hat'
+
+/-- the same loop when an empty slot comes before the target: `Seek` gives up with `false`,
+having consumed the present slots and the empty one. -/
+theorem Dec.seekLoop_gap : ∀ (vs : List Nat) (rest : Slots) (i : Nat) (e : Xor.Enc) (d : Dec) (st en : Nat)
+    (t : List Bool) (fuel s : Nat),
+    DecAt d st en i e (slotBits e (vs.map some ++ none :: rest) ++ t) → (∀ v ∈ vs, v < two64) →
+    st + i + vs.length < s → s ≤ en → en ≤ 65535 → i + vs.length + 1 ≤ 65535 → vs.length < fuel →
+    ∃ d', Dec.seekLoop s fuel d = (false, d') ∧
+      DecAt d' st en (i + vs.length + 1) (xStepAll e vs) (slotBits (xStepAll e vs) rest ++ t) := by
+  intro vs
+  induction vs with
+  | nil =>
+    intro rest i e d st en t fuel s h _ hs hen h65 hi hf
+    obtain ⟨f, rfl⟩ : ∃ f, fuel = f + 1 := ⟨fuel - 1, by omega⟩
+    simp only [List.length_nil, Nat.add_zero] at hs hi
+    have hu : u16 (d.idx + d.startTime) = st + i := by
+      rw [h.idx, h.st]; unfold u16; omega
+    have hidx : u16 (d.idx + 1) = i + 1 := by rw [h.idx]; unfold u16; omega
+    have hat' : DecAt { d with idx := i + 1 } st en (i + 1) e (false :: (slotBits e rest ++ t)) := by
+      simpa [slotBits] using h.setIdx (i + 1)
+    obtain ⟨d2, hhv, hat2⟩ := Dec.hasValue_spec hat'
+    have hhvs : d.hasValueWithSlot (st + i) = (false, d2) := by
+      unfold Dec.hasValueWithSlot
+      have c1 : ¬ (st + i < d.startTime ∨ st + i > d.endTime) := by rw [h.st, h.en]; omega
+      have c2 : st + i = u16 (d.idx + d.startTime) := hu.symm
+      rw [if_neg c1, if_pos c2, hidx, hhv]
+    refine ⟨d2, ?_, by simpa [xStepAll] using hat2⟩
+    simp only [Dec.seekLoop, hu, hs, if_true, hhvs]
+    simp
+  | cons v vs ih =>
+    intro rest i e d st en t fuel s h hvs hs hen h65 hi hf
+    obtain ⟨f, rfl⟩ : ∃ f, fuel = f + 1 := ⟨fuel - 1, by omega⟩
+    simp only [List.length_cons] at hs hi hf
+    have hv : v < two64 := hvs v (by simp)
+    have hu : u16 (d.idx + d.startTime) = st + i := by
+      rw [h.idx, h.st]; unfold u16; omega
+    have hlt : st + i < s := by omega
+    have hidx : u16 (d.idx + 1) = i + 1 := by rw [h.idx]; unfold u16; omega
+    have hat' : DecAt { d with idx := i + 1 } st en (i + 1) e
+        (true :: (encBits e v ++ (slotBits (e.step v) (vs.map some ++ none :: rest) ++ t))) := by
+      simpa [slotBits, List.append_assoc] using h.setIdx (i + 1)
+    obtain ⟨d2, hhv, hat2⟩ := Dec.hasValue_spec hat'
+    obtain ⟨d3, hval, hat3⟩ := Dec.value_spec hat2 hv
+    have hhvs : d.hasValueWithSlot (st + i) = (true, d2) := by
+      unfold Dec.hasValueWithSlot
+      have c1 : ¬ (st + i < d.startTime ∨ st + i > d.endTime) := by rw [h.st, h.en]; omega
+      have c2 : st + i = u16 (d.idx + d.startTime) := hu.symm
+      rw [if_neg c1, if_pos c2, hidx, hhv]
+    obtain ⟨d', hloop, hat'⟩ := ih rest (i + 1) (e.step v) d3 st en t f s hat3
+      (fun x hx => hvs x (by simp [hx])) (by omega) hen h65 (by omega) (by omega)
+    refine ⟨d', ?_, ?_⟩
+    · simp only [Dec.seekLoop, hu, hlt, if_true, hhvs, hval]
+      exact hloop
+    · have e2 : i + (v :: vs).length + 1 = i + 1 + vs.length + 1 := by simp; omega
+      rw [e2]
+      simpa [xStepAll] using hat'
+
+theorem slotAt_drop (st : Nat) (slots : Slots) (j s : Nat) (h : st + j ≤ s) :
+    slotAt (st + j) (slots.drop j) s = slotAt st slots s := by
+  unfold slotAt
+  rw [if_neg (by omega), if_neg (by omega), List.getElem?_drop]
+  congr 2; omega
+
 end LinVerif.Tsd
